@@ -400,6 +400,22 @@ GivenUpAfterSomePing == [][\A m \in Macs, i \in Ips :
   (hosts[m].ips[i].on = 1 /\ hosts'[m].ips[i].on = 0 /\ Present(hosts'[m]) /\ up[hosts[m].dpid]) =>
     hosts[m].ips[i].pend > PingLim]_vars
 
+\* ---- the documented intent that the code as built misses (hold with Strict = TRUE only; see the DEMO_*.cfg)
+\* D6: "there should be no IP addresses left" when a MAC entry expires
+LeaveOnlyBare == [][\A m \in Macs : (Present(hosts[m]) /\ ~Present(hosts'[m])) =>
+  \A i \in Ips : hosts[m].ips[i].on = 1 => (IpExpired(hosts[m].ips[i]) /\ Failed(hosts[m].ips[i]))]_vars
+\* D5: an address that speaks ARP is "known to answer ARP": it gets the arpAware interval
+ArpMakesAware == [][(IsPkt(last') /\ Learnable(last'.args.sw, last'.args.port, last'.args.kind) /\ HasArp(last'.args.kind)) =>
+  hosts'[last'.args.mac].ips[last'.args.ip].arp = 1]_vars
+\* D4: traffic from an address makes it alive again: nothing is pending any more
+RefreshClearsPending == [][(IsPkt(last') /\ Learnable(last'.args.sw, last'.args.port, last'.args.kind) /\ HasIp(last'.args.kind)) =>
+  hosts'[last'.args.mac].ips[last'.args.ip].pend = 0]_vars
+\* D2: one ping counts once, so pingLim pings are tried
+CountsOnce == [][IsCt(last') => \A g \in last'.exp.pings :
+  hosts'[g[3]].ips[g[4]].pend = hosts[g[3]].ips[g[4]].pend + 1]_vars
+\* D7: a MAC entry lives as long as the configured arpAware says
+MacLifeConfigured == MacLife = ArpAware
+
 \* only the timer firing makes the timer due again a full interval later; the timer fires exactly when due
 TimerExact == [][IF IsCt(last') THEN tph = TimerInterval /\ tph' = 0 ELSE tph' >= tph /\ tph' <= TimerInterval]_vars
 
